@@ -152,7 +152,46 @@ def c13_extra(pid, tier, seed):
         if impl != want:
             viol.append(('P', '# C13 violated: index file of the documented layout not read back identically\n# op: %s\n# impl: %s\n# want: %s\n'
                          % (line, impl, want)))
+    # whole segments written by the independent encoder - the log file and the index DERIVED from it (offset, position,
+    # running-maximum timestamp, FNV-1a-64 of the key; the empty key included) - must pass Segment.Check, and Recover
+    # must leave them byte for byte as they are
+    import recov
+    seg_lines, seg_meta = [], []
+    for i in range(n // 5):
+        v = rng.choice([1, 2])
+        iv = rng.choice([1, 2])
+        t, k = rng.choice([0, 1]), rng.choice([0, 1, 1])
+        base = rng.choice([0, 0, 9, 100000])
+        cnt = rng.choice([1, 2, 3, 5])
+        off, tcur, msgs = base, rng.randrange(0, 5000), []
+        for j in range(cnt):
+            tcur += rng.choice([0, 0, 1, 7])
+            key = '-' if rng.random() < 0.35 else rnd_bytes(rng, rng.choice([1, 2, 8, 20]))
+            msgs.append('%d|%d|%s|%s' % (off, tcur, key, rnd_bytes(rng, rng.choice([0, 1, 9, 40]))))
+            off += rng.choice([1, 1, 1, 3])
+        seg_lines.append('mkseg %d %d %d %d %d %s' % (v, iv, t, k, base, ' '.join(msgs)))
+        seg_meta.append((t, k, base))
+    seg_out = recov.model_lines(seg_lines, 'c13seg-' + pid) if seg_lines else []
+    chk_lines = []
+    for (t, k, base), o in zip(seg_meta, seg_out):
+        L, I = o.split()
+        chk_lines.append('check %d %d %d %s %s' % (t, k, base, L, I))
+        chk_lines.append('recover %d %d %d %s %s' % (t, k, base, L, I))
+    chk_lines = list(dict.fromkeys(chk_lines))
+    res5 = run_codec(chk_lines, 'codec5-' + pid) if chk_lines else []
+    for op, impl, model in res5:
+        f = op.split()
+        if f[0] == 'check' and impl != 'ok':
+            viol.append(('P', '# C13 violated: a segment written by an independent encoder of the documented layout (log file and the '
+                              'index derived from it) does not pass Check\n# op: %s\n# implementation: %s\n' % (op[:600], impl)))
+        elif f[0] == 'recover' and impl.split()[:3] != ['ok', f[4], f[5]]:
+            viol.append(('P', '# C13 violated: Recover changes a segment written by an independent encoder of the documented layout\n'
+                              '# op: %s\n# implementation: %s\n' % (op[:600], impl[:600])))
+        elif impl != model:
+            viol.append(('corr', '# correspondence corr:C13/segment: model and implementation disagree\n# op: %s\n# impl: %s\n# model: %s\n'
+                         % (op[:600], impl[:300], model[:300])))
     cov = dict(codec=dict(record_files_encoded=len(enc_lines), bytes_compared=nbytes, files_decoded=len(dec_lines),
+                          encoder_written_segments_checked=len(seg_lines),
                           index_files_encoded=len(ilines), index_files_decoded=len(idec),
                           rule='messages with key/value lengths 0..300, times and offsets over the int64 range incl. '
                                'negative and extremes, V1 and V2, file and mmap readers, four index layouts x two versions'))
